@@ -360,8 +360,22 @@ struct FnDriver : DriverBase<FnDriver<Cap>> {
             return;
         }
         if (op == "move_assign") {
-            if (obj[b] == nullptr || a == b) {
+            if (obj[b] == nullptr) {
                 skip();
+                return;
+            }
+            if (a == b) {
+                // F6: self-move-assignment through an alias. The standard leaves the value "valid but unspecified": the
+                // wrapper may end up empty or keep its target, but every captured object must be destroyed exactly
+                // once and nothing may be read after its lifetime ended (registry), and what it reports afterwards
+                // must be true (a later call reaches a live target or reports bad_function_call)
+                SIM_COUNT("F6.self_move_assign");
+                F& alias = *obj[b];
+                bool ok  = call(a, false, false, [&] { f = static_cast<F&&>(alias); });
+                if (ok) {
+                    resync(a);
+                    ++ctx.boundaryEvents;
+                }
                 return;
             }
             bool ok = call(a, false, false, [&] { f = static_cast<F&&>(*obj[b]); });
@@ -1107,7 +1121,7 @@ struct PairDriver : DriverBase<PairDriver<A, B>> {
             return;
         }
         if (op == "copy_assign" || op == "move_assign" || op == "convert_assign") {
-            if (op != "convert_assign" && (obj[b] == nullptr || unspec[b] || (op == "move_assign" && a == b))) {
+            if (op != "convert_assign" && (obj[b] == nullptr || unspec[b])) {
                 skip();
                 return;
             }
@@ -1115,8 +1129,9 @@ struct PairDriver : DriverBase<PairDriver<A, B>> {
                 skip();
                 return;
             }
-            if (a == b && op == "copy_assign") {
-                SIM_COUNT("F6.self_copy_assign");
+            if (a == b && op != "convert_assign") {
+                // self-move-assignment: the elements are move-assigned to themselves (value unspecified for class types)
+                SIM_COUNT(op == "copy_assign" ? "F6.self_copy_assign" : "F6.self_move_assign");
             }
             etl::pair<int, int> conv(v0, v1);
             // converting move assignment from a pair whose second element is an lvalue reference: the referent must be
@@ -1134,6 +1149,29 @@ struct PairDriver : DriverBase<PairDriver<A, B>> {
                         }
                         model[a]  = M(v0, v1);
                         unspec[a] = false;
+                        ++ctx.stateChanging;
+                        ++ctx.boundaryEvents;
+                    }
+                    return;
+                }
+            }
+            // F6: converting assignment from a pair of references that name the target's own elements, crossed. The
+            // elements are assigned one after the other (first, then second - which by then reads the new first), as
+            // std::pair does; nothing may snapshot the source
+            if constexpr (std::is_same_v<A, B> && std::is_copy_assignable_v<A>) {
+                if (op == "convert_assign" && st.k[0] % 5 == 4 && !unspec[a]) {
+                    SIM_COUNT("F6.pair_assigned_from_references_to_itself");
+                    bool ok2 = call(a, false, false, [&] {
+                        if (st.k[1] % 2 == 0) {
+                            etl::pair<A&, A&> src(p.second, p.first);
+                            p = static_cast<etl::pair<A&, A&>&&>(src);
+                        } else {
+                            etl::pair<A const&, A const&> src(p.second, p.first);
+                            p = src;
+                        }
+                    });
+                    if (ok2) {
+                        model[a] = M(model[a].second, model[a].second);
                         ++ctx.stateChanging;
                         ++ctx.boundaryEvents;
                     }
@@ -1641,6 +1679,7 @@ void register_fn_1()
 {
     add<PairDriver<int, int>>("pair<int,int>", {"C20"});
     add<PairDriver<sim::Tracked, int>>("pair<Tracked,int>", {"C20", "C03"});
+    add<PairDriver<sim::Tracked, sim::Tracked>>("pair<Tracked,Tracked>", {"C20", "C03"});
     add<PairDriver<sim::TrackedMoveOnly, sim::Tracked>>("pair<TrackedMoveOnly,Tracked>", {"C20", "C03"});
     add<PairDriver<sim::TrackedCopyOnly, sim::TrackedB>>("pair<TrackedCopyOnly,TrackedB>", {"C20", "C03"});
     add<TupleDriver<int, int, int>>("tuple<int,int,int>", {"C20"});
